@@ -277,7 +277,7 @@ def nodes(e) -> int:
 def lrec_grammar(rng: random.Random):
     """Layered expression grammars with direct, aliased, mutual, optional-prefixed and named left recursion,
     mixed with right recursion and unary prefixes. Returns (grammar, kind)."""
-    kind = rng.choice(['direct', 'direct2', 'aliased', 'aliased2', 'mutual', 'optprefix', 'optlead', 'named', 'rightmix', 'unary', 'layered', 'prefix2', 'prefix2', 'postfix', 'optcall'])
+    kind = rng.choice(['selector', 'direct', 'direct2', 'aliased', 'aliased2', 'mutual', 'optprefix', 'optlead', 'named', 'rightmix', 'unary', 'layered', 'prefix2', 'prefix2', 'postfix', 'optcall'])
     num = ('pat', r'\d+')
     ident = ('pat', r'[a-z]+')
     paren = [('tok', '('), 'cut', ('call', 'expr'), ('tok', ')')] if rng.random() < 0.4 else [('tok', '('), ('call', 'expr'), ('tok', ')')]
@@ -314,6 +314,16 @@ def lrec_grammar(rng: random.Random):
         rules = [('expr', [], ('call', 'e')),
                  ('e', [], ('choice', [('seq', [('call', 'expr'), ('tok', op1), ('call', 'term')]), ('call', 'term')])),
                  ('term', [], atom)]
+    elif kind == 'selector':
+        # two left-recursive alternatives share a long prefix (an index holding a whole nested expression); the first fails late
+        rules = [('expr', [], ('choice', [('seq', [('call', 'expr'), ('tok', '.'), ('call', 'nm')]),
+                                          ('seq', [('call', 'expr'), ('tok', '['), ('call', 'sum'), ('tok', ']')]),
+                                          ('seq', [('call', 'expr'), ('tok', '['), ('call', 'sum'), ('tok', ':'), ('call', 'sum'), ('tok', ']')]),
+                                          ('call', 'nm')])),
+                 ('sum', [], ('choice', [('seq', [('call', 'sum'), ('tok', op1), ('call', 'term')]), ('call', 'term')])),
+                 ('term', [], ('choice', [('seq', [('call', 'term'), ('tok', op2), ('call', 'factor')]), ('call', 'factor')])),
+                 ('factor', [], ('choice', [('seq', [('tok', '('), ('call', 'sum'), ('tok', ')')]), num, ('call', 'nm')])),
+                 ('nm', [], ('pat', r'[a-z]+'))]
     elif kind == 'aliased2':
         # the alias (a non-leader on the cycle) is called at the same position by two alternatives
         rules = [('expr', [], ('call', 'e')),
